@@ -79,8 +79,20 @@ fn arg_groups(o: &Opts, alg: &str) -> Vec<Vec<String>> {
     a
 }
 
+/// Every file below `dir`, as a path relative to it (directories themselves are not listed).
 fn list_files(dir: &std::path::Path) -> Vec<String> {
-    let mut v: Vec<String> = std::fs::read_dir(dir).map(|rd| rd.flatten().map(|e| e.file_name().to_string_lossy().to_string()).collect()).unwrap_or_default();
+    fn walk(base: &std::path::Path, d: &std::path::Path, v: &mut Vec<String>) {
+        for e in std::fs::read_dir(d).map(|rd| rd.flatten().collect::<Vec<_>>()).unwrap_or_default() {
+            let p = e.path();
+            if e.file_type().map(|t| t.is_dir()).unwrap_or(false) {
+                walk(base, &p, v);
+            } else {
+                v.push(p.strip_prefix(base).unwrap_or(&p).to_string_lossy().to_string());
+            }
+        }
+    }
+    let mut v = Vec::new();
+    walk(dir, dir, &mut v);
     v.sort();
     v
 }
@@ -98,6 +110,19 @@ fn judge(o: &Opts, bin: &std::path::Path, backend: &str, scratch: &std::path::Pa
         }
         None => dir,
     };
+    // base names that point into sub-directories of the output directory: the sub-directories exist beforehand (the tool
+    // creates the output directory, not what a file name adds to it); not combined with the run whose output directory is
+    // relative to a deep working directory
+    if let Some((a, b)) = &o.names {
+        for n in [a, b] {
+            if let Some(parent) = std::path::Path::new(n).parent().filter(|p| !p.as_os_str().is_empty()) {
+                if o.env == 7 {
+                    return out;
+                }
+                let _ = std::fs::create_dir_all(dir.join(parent));
+            }
+        }
+    }
     let rsa_unsupported = backend == "ring";
     let mut f = Vec::new();
     // history: a previous successful run into the same directory
@@ -371,7 +396,9 @@ pub fn opt_space(backend: &str) -> Space<Opts> {
             .v("hostname-like", |o: &mut Opts| o.names = Some(("www.example.com".into(), "ca.example.com".into())))
             .v("differing in case only", |o: &mut Opts| o.names = Some(("Server".into(), "server".into())))
             .v("upper-case twin with a dot", |o: &mut Opts| o.names = Some(("x.Key".into(), "X.key".into())))
-            .v("one a prefix of the other", |o: &mut Opts| o.names = Some(("cert".into(), "cert2".into()))),
+            .v("one a prefix of the other", |o: &mut Opts| o.names = Some(("cert".into(), "cert2".into())))
+            .v("into two existing sub-directories, same last component", |o: &mut Opts| o.names = Some(("server/tls".into(), "authority/tls".into())))
+            .v("one into an existing sub-directory, named like the other", |o: &mut Opts| o.names = Some(("sub/root-ca".into(), "root-ca".into()))),
     );
     dims.push(
         Dim::new("output_dir")
